@@ -2,6 +2,8 @@ package simrt
 
 import (
 	"encoding/binary"
+	"os"
+	"time"
 
 	"github.com/oklog/ulid/v2"
 )
@@ -84,4 +86,66 @@ func MakeULID(site string) ulid.ULID {
 //go:norace
 func splitmixConst(x uint64) uint64 {
 	return splitmix(&x)
+}
+
+// Now replaces time.Now(): the simulated clock (the same one MakeULID reads),
+// advanced by a tape-chosen step, so that a result that depends on the wall
+// clock depends on the schedule and shows up as a difference between runs.
+//
+//go:norace
+func Now(site string) time.Time {
+	s := cur
+	if s == nil {
+		return time.Now()
+	}
+	step := int64(1)
+	if s.cfg.ClockDen > 0 {
+		switch s.draw(s.cfg.ClockDen) {
+		case ClockStall:
+			step = 0
+		case ClockBack:
+			step = -1 - int64(s.draw(5000))
+		case ClockFwd:
+			step = 1 + int64(s.draw(86_400_000))
+		}
+	}
+	s.ms += step
+	if s.ms < s.stats.ClockMin {
+		s.stats.ClockMin = s.ms
+	}
+	if s.ms > s.stats.ClockMax {
+		s.stats.ClockMax = s.ms
+	}
+	s.fault("clock.read")
+	s.event(site, "clock.read", step)
+	return time.UnixMilli(s.ms)
+}
+
+// Getenv / LookupEnv replace os.Getenv / os.LookupEnv: the environment is not
+// an argument of any call, so a value read from it may be anything. With
+// ClockDen set (the "ambient" fault family) one read in ClockDen returns a
+// flipped value: unset variables read as "1", set ones as "".
+//
+//go:norace
+func Getenv(key, site string) string {
+	v, _ := LookupEnv(key, site)
+	return v
+}
+
+//go:norace
+func LookupEnv(key, site string) (string, bool) {
+	v, ok := os.LookupEnv(key)
+	s := cur
+	if s == nil || s.cfg.ClockDen == 0 {
+		return v, ok
+	}
+	if s.draw(s.cfg.ClockDen) == 1 {
+		s.fault("env.flip")
+		s.event(site, "env.flip", 0)
+		if ok && v != "" {
+			return "", true
+		}
+		return "1", true
+	}
+	return v, ok
 }
